@@ -431,6 +431,106 @@ def applyOp (env : Env) (h : HSt) : Op → HSt
 def runHistory (env : Env) (seed : List Comp) (ops : List Op) : HSt :=
   ops.foldl (applyOp env) ⟨St.init seed, []⟩
 
+/-! ### InsightsEvaluator: the observer decorates AFTER it has handled the outcome
+
+`InsightsEvaluator.observer` first calls `super().observer(comp, broker)` and then reads Specs.machine_id /
+Specs.redhat_release content and BranchInfo from the broker.  These are lazily loaded providers: reading `.content` /
+`.data` may raise.  An exception leaves the rest of the observer undone and is swallowed by `fire_observers`. -/
+
+/-- a content provider in the broker, as the decoration sees it -/
+inductive Provider where
+  | absent                         -- not in the broker
+  | content (lines : List Str)     -- `.content` (an empty list is falsy: nothing is read)
+  | raises                         -- `.content` raises (ContentException, file gone, …)
+deriving DecidableEq, Repr
+
+inductive BranchProv where
+  | absent
+  | data (nonEmpty : Bool)         -- `.data`; an empty dict leaves `branch_info` falsy
+  | raises
+deriving DecidableEq, Repr
+
+structure Deco where
+  machineId : Provider
+  release : Provider
+  branch : BranchProv
+deriving DecidableEq, Repr
+
+structure ISt where
+  st : St                          -- what SingleEvaluator has
+  systemId : Option Str
+  release : Option Str
+  branchLoaded : Bool              -- `bool(self.branch_info)`
+deriving Repr
+
+/-- a statement of the observer: `error` = it raised -/
+abbrev Stmt := ISt → Except Unit ISt
+
+/-- statements in order; an exception leaves the remaining ones undone (and is swallowed by fire_observers) -/
+def seqStmts : List Stmt → ISt → ISt
+  | [], s => s
+  | f :: rest, s =>
+    match f s with
+    | .ok s' => seqStmts rest s'
+    | .error _ => s
+
+def isPySpace (c : Char) : Bool := c = ' ' || c = '\n' || c = '\t' || c = '\r' || c.toNat = 11 || c.toNat = 12
+
+/-- `str.strip()` (ASCII white space) -/
+def pyStrip (s : Str) : Str := ((s.dropWhile isPySpace).reverse.dropWhile isPySpace).reverse
+
+/-- `X in broker and broker[X].content` … `broker[X].content[0].strip()` -/
+def readFirst : Provider → Except Unit (Option Str)
+  | .absent => .ok none
+  | .raises => .error ()
+  | .content [] => .ok none
+  | .content (l :: _) => .ok (some (pyStrip l))
+
+/-- `super(InsightsEvaluator, self).observer(comp, broker)` -/
+def handleStmt (r : Rule) : Stmt := fun s => .ok { s with st := observe s.st r }
+
+def machineIdStmt (d : Deco) : Stmt := fun s =>
+  if s.systemId.isSome then .ok s
+  else match readFirst d.machineId with
+    | .ok (some v) => .ok { s with systemId := some v }
+    | .ok none => .ok s
+    | .error e => .error e
+
+def releaseStmt (d : Deco) : Stmt := fun s =>
+  if s.release.isSome then .ok s
+  else match readFirst d.release with
+    | .ok (some v) => .ok { s with release := some v }
+    | .ok none => .ok s
+    | .error e => .error e
+
+def branchStmt (d : Deco) : Stmt := fun s =>
+  if s.branchLoaded then .ok s
+  else match d.branch with
+    | .absent => .ok s
+    | .data ne => .ok { s with branchLoaded := ne }
+    | .raises => .error ()
+
+/-- `InsightsEvaluator.observer(rule, broker)` -/
+def observerI (d : Deco) (r : Rule) : ISt → ISt :=
+  seqStmts [handleStmt r, machineIdStmt d, releaseStmt d, branchStmt d]
+
+def stepI (env : Env) (d : Deco) (s : ISt) (f : Fired) : ISt :=
+  observerI d f.1 { s with st := engineStep env f.2 s.st f.1 }
+
+def ISt.init (seed : List Comp) : ISt := ⟨St.init seed, none, none, false⟩
+
+/-- `InsightsEvaluator(broker).process(graph)` -/
+def runI (env : Env) (d : Deco) (seed : List Comp) (rules : List Rule) : ISt :=
+  (rules.map (·, true)).foldl (stepI env d) (ISt.init seed)
+
+def sRelease : Str := "release".toList
+
+/-- `format_response`: `if self.release: system["metadata"]["release"] = self.release` (the same dict as the evaluator's) -/
+def ISt.metadata (s : ISt) : Dict :=
+  match s.release with
+  | some v => if v.isEmpty then s.st.metadata else setKey sRelease (.str v) s.st.metadata
+  | none => s.st.metadata
+
 /-! ### `get_response` and `get_response_of_types` -/
 
 inductive Top where
